@@ -42,6 +42,9 @@ type ClientSpec struct {
 	IP         [4]byte
 	Chunks     []Chunk
 	Slow       bool
+	Flood      bool // a sender that never waits: once its first chunk has been delivered its socket is topped up again after
+	// every read of the proxy (at least two read buffers' worth pending) until the chunks run out, as if the
+	// client always won the race against the proxy
 	CloseAfter int // >0: a FIN becomes schedulable once this many chunks were delivered; 0: never
 	CloseRST   bool
 	Expect     [][]byte // reference reply per request (nil entry = unspecified)
@@ -682,6 +685,16 @@ func (w *World) wait() (fd int, mask uint32, n int, stop bool) {
 			if len(c.Sock.Rx) == 0 && c.chunkReady(w) {
 				c.Sock.Rx = append(c.Sock.Rx, c.Spec.Chunks[c.next].Data...)
 				c.next++
+				if c.Spec.Flood {
+					top := func() {
+						for len(c.Sock.Rx) < 2*w.Opts.ReadBufferCap && !c.PeerClosed && c.next < len(c.Spec.Chunks) {
+							c.Sock.Rx = append(c.Sock.Rx, c.Spec.Chunks[c.next].Data...)
+							c.next++
+						}
+					}
+					c.Sock.AfterRead = top
+					top()
+				}
 			}
 			return c.Sock.Fd, vsys.ReadyMask(c.Sock.Fd), 1, false
 		case evAccept:
